@@ -168,7 +168,7 @@ def find_renames(trees: dict[str, ast.Module], base: dict[str, Any]) -> tuple[di
             def jac(a: set, b: set) -> float:
                 return len(a & b) / len(a | b) if (a or b) else 1.0
 
-            at_ren.update(_match(miss, new, jac, 0.7))
+            at_ren.update(_match(miss, new, jac, 0.5))
     return fn_ren, at_ren
 
 
@@ -213,7 +213,9 @@ def _names(fn: ast.AST) -> set[str]:
 
 
 def _inlinable(fn: ast.AST) -> bool:
-    if not isinstance(fn, FuncDef) or fn.decorator_list:
+    if not isinstance(fn, FuncDef):
+        return False
+    if fn.decorator_list and not (len(fn.decorator_list) == 1 and isinstance(fn.decorator_list[0], ast.Name) and fn.decorator_list[0].id == "staticmethod"):
         return False
     a = fn.args
     if a.vararg or a.kwarg or a.posonlyargs:
@@ -274,7 +276,8 @@ def expand_call(helper: ast.AST, call: ast.Call, target: ast.expr | None, caller
     """Statements equivalent to `target = helper(*call.args)` (target None: value discarded)."""
     h = copy.deepcopy(helper)
     params = [a.arg for a in h.args.args]  # type: ignore[attr-defined]
-    if is_method:
+    static = bool(getattr(h, "decorator_list", None))
+    if is_method and not static:
         params = params[1:]
     defaults = h.args.defaults  # type: ignore[attr-defined]
     dmap = dict(zip(params[len(params) - len(defaults):], defaults)) if defaults else {}
@@ -296,7 +299,7 @@ def expand_call(helper: ast.AST, call: ast.Call, target: ast.expr | None, caller
             binds.append((p, dmap[p]))
         else:
             return None
-    locs = _stores(h) - ({"self"} if is_method else set())
+    locs = _stores(h) - ({"self"} if is_method and not static else set())
     ren: dict[str, str] = {}
     pre: list[ast.stmt] = []
     for p, arg in binds:
@@ -696,7 +699,17 @@ def inline_new_constants(trees: dict[str, ast.Module], base: dict[str, Any]) -> 
                 for t in tg:
                     if isinstance(t, ast.Name):
                         binds.setdefault(t.id, []).append(st.value)  # type: ignore[arg-type]
-        new = {k: v[0] for k, v in binds.items() if k not in known and len(v) == 1 and isinstance(v[0], ast.Constant) and isinstance(v[0].value, (int, float, str, bytes)) and not isinstance(v[0].value, bool)}
+        def literalish(e: ast.expr) -> bool:
+            if isinstance(e, ast.Constant) and isinstance(e.value, (int, float, str, bytes)) and not isinstance(e.value, bool):
+                return True
+            # an immutable value object built from literals, e.g. APIVersion(1, 1), or a tuple of enum members
+            if isinstance(e, ast.Call) and isinstance(e.func, ast.Name) and e.func.id[:1].isupper() and not e.keywords and e.args and all(isinstance(a, ast.Constant) for a in e.args):
+                return True
+            if isinstance(e, ast.Tuple) and e.elts and all(isinstance(x, (ast.Constant, ast.Attribute, ast.Name)) for x in e.elts):
+                return True
+            return False
+
+        new = {k: v[0] for k, v in binds.items() if k not in known and len(v) == 1 and literalish(v[0])}
         # not if the name is rebound anywhere (global statement) or imported elsewhere
         if not new:
             continue
